@@ -51,7 +51,7 @@ def statuses(n: int, maxdev: int):
     for d in range(0, maxdev + 1):
         for idx in itertools.combinations(range(n), d):
             # failed-load: the rule's text has a valid first and an invalid second conclusion, its load failed (single deviations)
-            for kinds in itertools.product(("disabled", "unloaded") + (("failed-load",) if d == 1 else ()), repeat=d):
+            for kinds in itertools.product(("disabled", "unloaded") + (("failed-load", "half-unloaded") if d == 1 else ()), repeat=d):
                 st = ["normal"] * n
                 for i, k in zip(idx, kinds):
                     st[i] = k
@@ -68,13 +68,21 @@ def plan(tier: str, seed: int):
 
 
 def build(n: int):
-    inputs = [fl.InputVariable(f"i{k}", minimum=0.0, maximum=1.0, terms=[fl.Ramp("t", 0.0, 1.0)]) for k in range(n)]
+    # z is 0 and u is 1 on the whole range: `t or z` and `t and u` have the degree of `t` - under the block's disjunction /
+    # conjunction and under nothing else (Minimum / Maximum swapped would give 0 / 1)
+    inputs = [fl.InputVariable(f"i{k}", minimum=0.0, maximum=1.0,
+                               terms=[fl.Ramp("t", 0.0, 1.0), fl.Rectangle("z", 5.0, 6.0), fl.Rectangle("u", -5.0, 6.0)]) for k in range(n)]
     out = fl.OutputVariable("o", minimum=0.0, maximum=1.0,
                             terms=[fl.Triangle(f"t{k}", 0.0, 0.5, 1.0) for k in range(n)])
     block = fl.RuleBlock("rb", conjunction=fl.Minimum(), disjunction=fl.Maximum(), implication=fl.Minimum())
     engine = fl.Engine("e", input_variables=inputs, output_variables=[out], rule_blocks=[block])
-    block.rules = [fl.Rule.create(f"if i{k} is t then o is t{k}", engine) for k in range(n)]
+    block.rules = [fl.Rule.create(rule_text(k), engine) for k in range(n)]
     return engine, block, out
+
+
+def rule_text(k: int) -> str:
+    ante = f"i{k} is t or i{k} is z" if k % 2 == 0 else f"i{k} is t and i{k} is u"
+    return f"if {ante} then o is t{k}"
 
 
 def make_method(name: str, params: tuple):
@@ -90,7 +98,7 @@ def run_case(acc: Acc, engine, block, out, n, degrees, status, mname, params) ->
     out.fuzzy.clear()
     block.activate()
     acc.transitions += 1
-    loaded = [s not in ("unloaded", "failed-load") for s in status]
+    loaded = [s not in ("unloaded", "failed-load", "half-unloaded") for s in status]
     enabled = [s != "disabled" for s in status]
     stored, trig, contrib = R.activate(mname, params, list(degrees), loaded, enabled)
     acc.traces += 1
@@ -129,7 +137,7 @@ def run_case(acc: Acc, engine, block, out, n, degrees, status, mname, params) ->
 def apply_status(engine, block, status) -> None:
     for k, (rule, st) in enumerate(zip(block.rules, status)):
         rule.enabled = st != "disabled"
-        valid = f"if i{k} is t then o is t{k}"
+        valid = rule_text(k)
         if st == "failed-load":
             rule.parse(f"{valid} and ghost is t{k}")
             try:
@@ -142,6 +150,14 @@ def apply_status(engine, block, status) -> None:
             rule.parse(valid)
         if st == "unloaded":
             rule.unload()
+        elif st == "half-unloaded":  # only the antecedent is unloaded (the rule keeps whatever state its last activation left)
+            if not rule.is_loaded():
+                rule.load(engine)
+            for iv in engine.input_variables:  # one activation with every degree 1: the rule is left triggered ...
+                iv.value = 1.0
+            block.activate()
+            engine.output_variables[0].fuzzy.clear()
+            rule.antecedent.unload()           # ... and then loses its antecedent
         elif not rule.is_loaded():
             rule.load(engine)
 
@@ -207,7 +223,7 @@ def summarize(tier: str, seed: int, merged: dict) -> dict:
         "rule": (
             "blocks of n rules (n, |degree alphabet|, max status deviations) = "
             f"{sizes(tier)}; all degree vectors x all status vectors within the deviation bound "
-            "(disabled/unloaded/load failed after the first conclusion; degree alphabets {0, 2^-12, .25, .5, 1, NaN} / {0, 2^-12, .25, .5, 1} / {0, .25, .5, 1} / {0, .5, 1}) x General, "
+            "(disabled/unloaded/only the antecedent unloaded/load failed after the first conclusion; antecedents `t or <always 0>` / `t and <always 1>`; degree alphabets {0, 2^-12, .25, .5, 1, NaN} / {0, 2^-12, .25, .5, 1} / {0, .25, .5, 1} / {0, .5, 1}) x General, "
             "Proportional, First/Last(n=0..rules+1, t in {0, 2^-12, .25, .3, .5, 1}), "
             "Highest/Lowest(n=-1..rules+1), Threshold(6 comparators x 6 thresholds); plus batch rejection (size 2) and acceptance of one-element arrays. "
             "states = (block, degrees, status, method) configurations, transitions = RuleBlock.activate calls, traces = "
